@@ -148,3 +148,73 @@ func TestVerifKEMFirstUse(t *testing.T) {
 		}
 	}
 }
+
+// TestVerifKEMHandOuts: the octet strings a key object hands out
+// (MarshalBinary of private and public keys, of the public key Public()
+// returns) are the caller's: a caller that wipes the exported secret, or
+// re-uses the buffer, must leave the key object what it was - it still
+// decapsulates what was encapsulated to its public key, exports the same
+// octets again, and Public() is still X(k, base point).
+func TestVerifKEMHandOuts(t *testing.T) {
+	const mon = "TestVerifKEMHandOuts"
+	lib.Mandatory("kem-hand-outs:keys")
+	for _, s := range []kem.Scheme{
+		hpke.KEM_X25519_HKDF_SHA256.Scheme(), hpke.KEM_X448_HKDF_SHA512.Scheme(),
+		hybrid.Kyber768X25519(), hybrid.X25519MLKEM768(), hybrid.Kyber768X448(), hybrid.Kyber1024X448(),
+		xwing.Scheme(), hpke.KEM_XWING.Scheme(), hpke.KEM_X25519_KYBER768_DRAFT00.Scheme(),
+	} {
+		name := s.Name()
+		for i := 0; i < lib.Scale(4, 40); i++ {
+			r := lib.NewRng("c06/hand-outs/"+name, i)
+			seed := r.Bytes(s.SeedSize())
+			pk, sk := s.DeriveKeyPair(lib.Clone(seed))
+			es := r.Bytes(s.EncapsulationSeedSize())
+			ct, ss, err := s.EncapsulateDeterministically(pk, es)
+			if err != nil {
+				continue
+			}
+			lib.Case([]byte("hand-outs"), []byte(name), seed)
+			lib.Count("kem-hand-outs:keys")
+			wipe := func(b []byte) []byte {
+				keep := lib.Clone(b)
+				for j := range b {
+					b[j] = 0xEE
+				}
+				// ... and up to the capacity
+				b = b[:cap(b)]
+				for j := len(keep); j < len(b); j++ {
+					b[j] = 0xEE
+				}
+				return keep
+			}
+			skb, _ := sk.MarshalBinary()
+			skKeep := wipe(skb)
+			pkb, _ := pk.MarshalBinary()
+			pkKeep := wipe(pkb)
+			ppb, _ := sk.Public().MarshalBinary()
+			wipe(ppb)
+			d := lib.D("scheme", name, "seed", seed)
+			got, derr := s.Decapsulate(sk, lib.Clone(ct))
+			if derr != nil || !lib.Eq(got, ss) {
+				d["err"] = derr
+				lib.Violation("C06:key-changed-by-writing-to-exported-octets:"+name+":Decapsulate", mon, d)
+				continue
+			}
+			skNow, _ := sk.MarshalBinary()
+			pkNow, _ := pk.MarshalBinary()
+			ppNow, _ := sk.Public().MarshalBinary()
+			if !lib.Eq(skNow, skKeep) || !lib.Eq(pkNow, pkKeep) || !lib.Eq(ppNow, pkKeep) {
+				d["private_key_same"], d["public_key_same"], d["Public()_same"] = lib.Eq(skNow, skKeep), lib.Eq(pkNow, pkKeep), lib.Eq(ppNow, pkKeep)
+				lib.Violation("C06:key-changed-by-writing-to-exported-octets:"+name, mon, d)
+				continue
+			}
+			// a sender encapsulating to Public() and the key owner still agree
+			if pub, ok := sk.Public().(kem.PublicKey); ok {
+				ct2, ss2, e2 := s.EncapsulateDeterministically(pub, es)
+				if e2 != nil || !lib.Eq(ct2, ct) || !lib.Eq(ss2, ss) {
+					lib.Violation("C06:key-changed-by-writing-to-exported-octets:"+name+":Public", mon, d)
+				}
+			}
+		}
+	}
+}
